@@ -186,3 +186,7 @@ func vfMatchExpr(i int) string    { return "" }
 func vfMatchSubject(i int) string { return "" }
 func vfMatchResult(i int) bool    { return false }
 func vfMatchErr(i int) bool       { return false }
+
+// vfHoldTimers keeps time.AfterFunc callbacks from firing until vfReleaseTimers (engine only).
+func vfHoldTimers()    {}
+func vfReleaseTimers() {}
